@@ -271,7 +271,7 @@ func (ctx *Ctx) GetCounter(key string) int {
 	if rawC == nil {
 		return 0
 	}
-	if i, ok := rawC.(*int); ok {
+	if i, ok := rawC.(*int); ok && i != nil {
 		return *i
 	}
 	return 0
